@@ -9,16 +9,29 @@ namespace Spydr.IO
 
 variable {ρ ε α ι : Type}
 
-/-- T `read_policy_restored`: whatever the parse body does — succeed, raise at any point, even assign
-    the policy itself — the policy after `parse()` is the policy before it.  For the reader that does
-    not switch the policy (EBLIF) this needs the body not to assign it. -/
-theorem read_policy_restored (f : Fmt) (body : Call ρ ε α)
-    (h : switchOf f = none → Neutral body) : PolicyClean (read f body) := by
+/-- T `read_policy_restored`, the two readers that switch the policy (EDIF, Verilog): whatever the
+    parse body does — succeed, raise at any point, even assign the policy itself — the policy after
+    `parse()` is the policy before it. -/
+theorem read_policy_restored_switching (f : Fmt) (hf : switchOf f ≠ none) (body : Call ρ ε α) :
+    PolicyClean (read f body) := by
   intro s
   cases f
   · simp [read, switchOf, withPolicy]
   · simp [read, switchOf, withPolicy]
-  · simpa [read, switchOf] using h rfl s
+  · exact absurd rfl hf
+
+/-- All three formats.  For EBLIF (no switch) the body is policy-read-only BY ASSUMPTION (`ReadOnly`:
+    the source never names `namespace_manager`; re-checked syntactically and by the trajectory
+    correspondence on every run) and the clause is immediate — it is not a result about the EBLIF
+    parse body. -/
+theorem read_policy_restored (f : Fmt) (body : Call ρ ε α)
+    (h : switchOf f = none → ReadOnly body) : PolicyClean (read f body) := by
+  intro s
+  cases f
+  · exact read_policy_restored_switching .edif (by simp [switchOf]) body s
+  · exact read_policy_restored_switching .verilog (by simp [switchOf]) body s
+  · obtain ⟨b, rfl⟩ := h rfl
+    rfl
 
 /-- The model is not a constant: the outcome (return value or error) is the body's, run under the
     switched policy; and everything but the policy is what the body left. -/
@@ -45,9 +58,9 @@ theorem unrepaired_leaks :
 
 /-! ### lift over arbitrary histories -/
 
-/-- Bodies of readers that do not switch the policy never assign it. -/
+/-- Bodies of readers that do not switch the policy are policy-read-only (assumption, see `ReadOnly`). -/
 def NeutralBodies (body : Fmt → ι → Call ρ ε α) : Prop :=
-  ∀ f i, switchOf f = none → Neutral (body f i)
+  ∀ f i, switchOf f = none → ReadOnly (body f i)
 
 theorem step_parse_policy (body : Fmt → ι → Call ρ ε α) (hb : NeutralBodies body)
     (s : Proc ρ) (f : Fmt) (i : ι) : (step read body s (.parse f i)).1.policy = s.policy := by
